@@ -15,11 +15,15 @@ pub struct UserSink {
     pub ops: Vec<String>,
     pub fail_at: Option<usize>,
     pub record_ops: bool,
+    /// true: the sink fails ONCE, on its k-th operation, and would accept later operations (a transient error)
+    pub once: bool,
+    pub calls: usize,
 }
 impl UserSink {
-    pub fn new(fail_at: Option<usize>) -> Self { UserSink { bits: vec![], ops: vec![], fail_at, record_ops: true } }
+    pub fn new(fail_at: Option<usize>) -> Self { UserSink { bits: vec![], ops: vec![], fail_at, record_ops: true, once: false, calls: 0 } }
     fn tick(&mut self, desc: impl FnOnce() -> String) -> Result<(), SinkFail> {
-        let k = self.ops.len();
+        let k = if self.once { self.calls } else { self.ops.len() };
+        self.calls += 1;
         if Some(k) == self.fail_at { return Err(SinkFail); }
         if self.record_ops { self.ops.push(desc()); } else { self.ops.push(String::new()); }
         Ok(())
